@@ -73,20 +73,23 @@ func (t StopActivityTransition) do(env *Environment) (err error) {
 		}
 	}
 
-	taskmanMessage := task.NewTransitionTaskMessage(
-		workflow.GetActiveTasks(env.Workflow()),
-		sm.RUNNING.String(),
-		sm.STOP.String(),
-		sm.CONFIGURED.String(),
-		args,
-		env.Id(),
-	)
-	t.taskman.MessageChannel <- taskmanMessage
+	// With no active tasks there is nothing to command: the transition succeeds at once
+	if activeTasks := workflow.GetActiveTasks(env.Workflow()); len(activeTasks) != 0 {
+		taskmanMessage := task.NewTransitionTaskMessage(
+			activeTasks,
+			sm.RUNNING.String(),
+			sm.STOP.String(),
+			sm.CONFIGURED.String(),
+			args,
+			env.Id(),
+		)
+		t.taskman.MessageChannel <- taskmanMessage
 
-	incomingEv := <-env.stateChangedCh
-	// If some tasks failed to transition
-	if tasksStateErrors := incomingEv.GetTasksStateChangedError(); tasksStateErrors != nil {
-		return tasksStateErrors
+		incomingEv := <-env.stateChangedCh
+		// If some tasks failed to transition
+		if tasksStateErrors := incomingEv.GetTasksStateChangedError(); tasksStateErrors != nil {
+			return tasksStateErrors
+		}
 	}
 	env.sendEnvironmentEvent(&event.EnvironmentEvent{EnvironmentID: env.Id().String(), State: "CONFIGURED"})
 
